@@ -355,6 +355,22 @@ impl Service {
         }
     }
 
+    /// true if a persistent instance is stored under the key; its connection ownership (if any) is dropped
+    pub(crate) fn release_persistent_owner(&mut self, instance_id: &InstanceShortKey) -> bool {
+        let old = match self.instances.get(instance_id) {
+            Some(old) if !old.ephemeral => old.clone(),
+            _ => return false,
+        };
+        if old.from_grpc || !old.client_id.is_empty() {
+            let mut i = old.as_ref().clone();
+            i.from_grpc = false;
+            i.from_cluster = 0;
+            i.client_id = EMPTY_ARC_STRING.clone();
+            self.instances.insert(instance_id.clone(), Arc::new(i));
+        }
+        true
+    }
+
     pub(crate) fn update_instance_healthy_invalid(&mut self, instance_id: &InstanceShortKey) {
         if let Some(i) = self.instances.remove(instance_id) {
             if i.healthy {
